@@ -20,7 +20,8 @@ EXPLANATION = (
     'factor order (X3). Monotone/bounded outputs over all inputs are a theorem '
     'about products of interpolants and are NOT decided here.'
     ' Also decided: finalize_constraints stores the projection with assign, not assign_add of a difference (R1); gradient masks take the operand dtype (D1); with clip_inputs on, every path of the KFL evaluation clips (X5); abs is taken before the maximum (B1).'
-    ' Nothing that is used later is computed from a value before the statement that clips that value (X5, self-clip order).')
+    ' Nothing that is used later is computed from a value before the statement that clips that value (X5, self-clip order).'
+    ' Every kernel constraint object built by the layer receives the variable self.scale itself, not a value read from it at build time (W2 live scale).')
 ASSUMPTIONS = [
     'Keras re-applies variable.constraint after each optimizer update',
     'the abstract states none/zero/non-zero (bounds) and none/empty/all-zero/'
@@ -31,7 +32,41 @@ L = 'kronecker_factored_lattice_layer'
 B = 'kronecker_factored_lattice_lib'
 
 
+def _live_scale(prog, res):
+  """W2: the kernel constraints of the layer order the keypoints by the SIGN
+  of `scale`, which the optimizer changes between updates: every constraint
+  object built in KroneckerFactoredLattice.build receives the variable
+  `self.scale` itself (read at every projection), never a value read from it
+  at build time (`self.scale.read_value()`, `tf.identity(self.scale)`, a
+  local snapshot)."""
+  fn = prog.function('kronecker_factored_lattice_layer.'
+                     'KroneckerFactoredLattice.build')
+  res.analysed(fn)
+  n = 0
+  for c in ast.walk(fn.node):
+    if not isinstance(c, ast.Call):
+      continue
+    # constraint objects only (the kernel initializer legitimately receives
+    # the value of the scale at initialisation time)
+    if getattr(prog.resolve_call(fn, c), 'name', '') != \
+        'KroneckerFactoredLatticeConstraints':
+      continue
+    for k in c.keywords:
+      if k.arg == 'scale':
+        n += 1
+        res.check(dotted(k.value) == 'self.scale', 'W2',
+                  '%s|live-scale#%d' % (fn.qualname, n), fn.loc(c),
+                  'the constraint receives the variable self.scale',
+                  'the constraint receives `%s` as its scale: a value read '
+                  'once at build time, while the sign of the scale variable '
+                  'changes during training' % norm_text(k.value)[:50])
+  if n < 2:
+    raise AnalysisError('KroneckerFactoredLattice.build: the scale arguments '
+                        'of the kernel constraints were not found')
+
+
 def run(prog, res):
+  _live_scale(prog, res)
   from ..rules import guards as _gsc
   _gsc.check_self_clip_order(prog, res, [f for m in ['kronecker_factored_lattice_lib'] for f in prog.module(m).all_functions()])
   res.floor('X5', 6)
